@@ -959,14 +959,14 @@ package main
 //@   modifies nothing
 //@   ensures [C10] needs_permission: ok ==> what == "acs" || what == "gone" || (what == "upd" && (mode & types.ModeJoin) != 0) || (mode & types.ModePres) != 0
 //@ func (t *Topic) infoSubsOffline(from types.Uid, what string, seq int, skipSid string)
-//@   requires t != nil
+//@   requires [C10,assumed] t != nil
 //@   requires [C10,assumed] hub_running: globals.hub != nil
 //@   modifies inferred
 //@   loop 1
 //@     iterates [C09,C10] receipts_need_P_and_R: sent(globals.hub.routeSrv) > prev(sent(globals.hub.routeSrv)) ==> !pud.deleted && ((pud.modeGiven & pud.modeWant) & types.ModePres) != 0 && ((pud.modeGiven & pud.modeWant) & types.ModeRead) != 0
 //@     iterates [C10] one_per_subscriber: sent(globals.hub.routeSrv) <= prev(sent(globals.hub.routeSrv)) + 1
 //@ func (t *Topic) presSubsOffline(what string, params *presParams, filterSource *presFilters, filterTarget *presFilters, skipSid string, offlineOnly bool)
-//@   requires t != nil && params != nil && filterTarget != nil
+//@   requires [C10,assumed] t != nil && params != nil && filterTarget != nil
 //@   requires [C10,assumed] hub_running: globals.hub != nil
 //@   modifies inferred
 //@   loop 1
